@@ -19,10 +19,11 @@ def run(ctx):
     d = ctx.specdir()
     base = open(os.path.join(d, "HnswConc_mc.cfg")).read()
 
-    def tlc(prog, init, name, safe="TRUE", count=True):
+    def tlc(prog, init, name, safe="TRUE", count=True, start="TRUE"):
         open(os.path.join(d, name + ".cfg"), "w").write(base.replace("Prog <- P_writer_readers", "Prog <- " + prog)
                                                         .replace("Initial <- I3", "Initial <- " + init)
-                                                        .replace("SafeHandOver = TRUE", "SafeHandOver = " + safe))
+                                                        .replace("SafeHandOver = TRUE", "SafeHandOver = " + safe)
+                                                        .replace("StartFiltered = TRUE", "StartFiltered = " + start))
         return ctx.tlc("HnswConcMC", name + ".cfg", timeout=300, name=name, count=count)
     for prog, init in (("P_writer_readers", "I3"), ("P_ins_readers", "I1"), ("P_rem_rem", "I3"), ("P_rem_ins", "I1")):
         r = tlc(prog, init, "conc-" + prog)
@@ -33,6 +34,10 @@ def run(ctx):
     r2 = tlc("P_rem_ins", "I1", "conc-remins-shipped", safe="FALSE", count=False)
     ctx.cov["binding_selftest"]["switch_SafeHandOver_FALSE_rem_rem_counterexample"] = r1.violated
     ctx.cov["binding_selftest"]["switch_SafeHandOver_FALSE_rem_ins_counterexample"] = r2.violated
+    r3 = tlc("P_writer_readers", "I3", "conc-start-unfiltered", start="FALSE", count=False)
+    ctx.cov["binding_selftest"]["switch_StartFiltered_FALSE_single_writer_counterexample"] = r3.violated
+    if not r3.violated:
+        raise vlib.NoVerdict("vacuity guard failed: a search that does not filter its start vertex does not violate SearchLive")
     if not (r1.violated and r2.violated):
         raise vlib.NoVerdict("vacuity guard failed: the shipped hand-over does not violate the model invariants with two writers")
     with open(os.path.join(d, "HnswRankDef.tla"), "w") as f:
